@@ -6,6 +6,33 @@ import os
 V = os.path.dirname(os.path.dirname(os.path.abspath(__file__)))
 
 CHECKS = {
+    "C06": dict(
+        engine="E2-explicit-state",
+        category="model_checking",
+        text="Explicit-state BFS over the real ArgsFormatBuilder (deepcopy fork, full-vars() fingerprint + reference element lists) on 11 base formats of "
+             "0-2 levels: alphabets of up to 116 operations (add_option / add_command_option with aliases / add_argument / add_command_name / set_* with every "
+             "0-2 tuple) drawn from a colliding name pool. The option, argument and no-command-name graphs close (histories of any length); the full alphabet "
+             "is explored to depth 3 (thorough 4), command names to depth 5 (7). Every transition: acceptance == reference conflict predicate, documented "
+             "exception class, rejected addition leaves the fingerprint unchanged and is refused by ArgsFormat(elements+[e], base) and CommandConfig too. Every "
+             "distinct state: ~190 queries agree between builder, built format, element-list constructor, CommandConfig.build_args_format and the reference.",
+        design_ref="2/C06",
+        note="Trusted: the reference model (element lists + conflict predicate) in props/c06.py. set_* need not be atomic; options have no required order between "
+             "levels; name pools are small (2 long names, 3 argument names).",
+        technique="explicit-state model checking of the implementation (BFS over builder operation histories, full-state fingerprints, reference-model oracle)",
+    ),
+    "C07": dict(
+        engine="E1-enumerator",
+        category="exploration",
+        text="Complete enumeration on the real classes: all 2^13 option flag words x short name x default kind, all 2^11 argument flag words x default kind, all "
+             "2^13 CommandOption words x alias lists; every name of length <= 4 (thorough 5) over {a,Z,1,-,_,e-acute,space}(+1 rotated) bare / '-' / '--' in 5 "
+             "roles; parse() of 20 typed objects over None, 68 boundary texts, every int in +-1100 (thorough +-20000) and 32/64-bit boundaries, a 200-point float "
+             "grid and booleans. Oracle: independent predicate of the documented contradictions; accepted objects report one value type and a consistent value "
+             "mode; names accepted iff well-formed after removing the dash prefix; parse returns the declared type / None when nullable / ValueError and round-trips.",
+        design_ref="2/C07",
+        note="Trusted: the acceptance predicate written from the documented contradictions. REQUIRED_VALUE|OPTIONAL_VALUE is not a documented contradiction; floats "
+             "are a grid.",
+        technique="complete enumeration of the finite flag/name/value spaces on the implementation",
+    ),
     "C04": dict(
         engine="E1-enumerator",
         category="fault_enumeration",
